@@ -191,10 +191,32 @@ for _s in ("malloc", "mmap", "split"):
                       "gen": make_gen(_s, _b, 45 if _b == "asm" else 25, 700 if _b == "asm" else 300),
                       "post": post, "nontrivial": nontrivial})
 
+def _guard_parts():
+    """The resumption clause holds for a switch whose TARGET is a suspended context (Guard).  That
+    the runtime (src/fiber_manager.c) only ever switches to fibers whose switch-out has completed
+    is C01's theorem (Rt.switch_target_saved); its correspondence - the mixed-program and the
+    signal harness followed by the runtime model - is re-run here, so that a manager that
+    publishes a fiber before its context is saved is reported by this check too."""
+    import specs_c01
+    out = []
+    for name, nq, nt in (("rt", 250, 3000), ("rt-signal", 80, 1000)):
+        src = [p for p in specs_c01.SPEC["C01"]["parts"] if p["name"] == name][0]
+        part = dict(src)
+        part["name"] = "guard-" + name
+
+        def gen(rng, tier, _g=src["gen"], _nq=nq, _nt=nt):
+            cs = _g(rng, tier)
+            rng.shuffle(cs)
+            return cs[: (_nt if tier == "thorough" else _nq)]
+        part["gen"] = gen
+        out.append(part)
+    return out
+
+
 SPEC = {
     "C19": {
         "pre": pre,
-        "parts": PARTS,
+        "parts": PARTS + _guard_parts(),
         "rule": "cases = (nfibers, requested stack size, hops, cross-thread phase, create/destroy churn, VR_SEED) per (stack strategy x "
                 "switching back-end) executable; distinct = different (args, sha1 of the recorded hop/entry/init/destroy sequence); "
                 "non-trivial = at least one suspended context was resumed (its planted registers, rsp and stack canaries compared)",
@@ -207,7 +229,7 @@ SPEC = {
         ],
         "assumptions": [
             "client obligations (Guard): switch only to a suspended context, >= 56 bytes of room below rsp on the own stack, a fiber "
-            "writes only its own stack; discharged for the runtime by C01",
+            "writes only its own stack; discharged for the runtime by C01 (theorem Rt.switch_target_saved; its correspondence is re-run here as parts guard-rt and guard-rt-signal)",
             "page size >= 4096; libgcc __splitstack_makecontext returns >= 3840 usable bytes (checked dynamically: every created "
             "context's frame must lie inside [ctx_stack, ctx_stack+ctx_stack_size))",
             "not modelled in Lean, differential harness only: swapcontext/makecontext back-end, __splitstack_* bookkeeping, x87/MXCSR/SSE state",
